@@ -789,10 +789,17 @@ func (r *ref) store(c Val, key Val, v Val) {
 		k := r.toKey(key)
 		if k.num {
 			r.f("write.map-number-key")
-			if r.devs[devNumKeyWrite] {
-				if _, has := x.m[k]; has {
-					r.fired[devNumKeyWrite] = true
-				}
+			// Representation: a number key that the map does not have yet is kept in
+			// its text form (all reads, len, del and the comparison treat 5 and its
+			// text form alike, and the two forms never coexist here). This makes no
+			// observable difference for the model, but it lets the deviation switches
+			// tell keys of literals from keys created by assignment, which is what
+			// the interpreter's own representation distinguishes.
+			_, has := x.m[k]
+			if has && r.devs[devNumKeyWrite] {
+				r.fired[devNumKeyWrite] = true
+			}
+			if !has || r.devs[devNumKeyWrite] {
 				k = mkey{s: fmtNum(k.n)}
 			}
 		} else {
